@@ -179,6 +179,9 @@ var readExpr = map[string]string{
 	// the response is a JSON object written with $w->json([...]) (string keys and string values that carry the request's
 	// id): the engine decodes the body and puts the verdict (the id, or what was wrong) in this read's place
 	"jsonbody": `"JSON"`,
+	// a process-wide (static) associative table that requests only READ: iterate it with foreach, parking inside the
+	// loop body (inner gate 50: such steps are not reported in "order", the stage is merely split)
+	"static_iter": `c11_iter($n, $id)`,
 }
 
 func jsonMode(segs [][]string) bool {
@@ -204,6 +207,11 @@ func script(segs [][]string, gates bool, quiet bool, capt bool) string {
 	var sb strings.Builder
 	sb.WriteString("class C11Box { public $v; function __construct($v) { $this->v = $v; } }\n")
 	sb.WriteString("function c11_ob_open($id) { ob_start(); echo $id; return $id; }\n")
+	if gates {
+		sb.WriteString("function c11_iter($n, $id) { static $tbl = [\"a\" => \"1\", \"b\" => \"2\", \"c\" => \"3\"]; $s = \"\"; foreach ($tbl as $k => $v) { verif_gate($n, 50); $s = $s . $k . $v; } return ($s == \"a1b2c3\") ? $id : \"it\" . $s; }\n")
+	} else {
+		sb.WriteString("function c11_iter($n, $id) { static $tbl = [\"a\" => \"1\", \"b\" => \"2\", \"c\" => \"3\"]; $s = \"\"; foreach ($tbl as $k => $v) { $s = $s . $k . $v; } return ($s == \"a1b2c3\") ? $id : \"it\" . $s; }\n")
+	}
 	sb.WriteString("class C11Dto { public $pid = \"none\"; public $opt = \"dflt\"; public $id = \"0\"; }\n")
 	sb.WriteString("function c11_field($a, $k) { if (is_array($a)) { return $a[$k]; } return $a->{$k}; }\n")
 	sb.WriteString("function c11_after($s, $m) { $p = strpos($s, $m); if ($p === false) { return \"?\"; } return substr($s, $p + strlen($m)); }\n")
@@ -548,6 +556,9 @@ func runGated() {
 					k = -2 // parked at a yield point
 				}
 				stage[i] = k
+				if k == 50 {
+					return true // parked inside a loop body: the stage is not finished, nothing to report to the model
+				}
 			case <-done[i]:
 				stage[i] = -1
 			case <-time.After(time.Duration(stepMs) * time.Millisecond):
